@@ -232,7 +232,12 @@ pub fn cms_history(ctx: &mut Ctx, nops: u64) {
     if ctx.rng.chance(1, 2) {
         let bh3 = if ctx.rng.chance(1, 2) { ctx.rand_hasher() } else { bh };
         ctx.hasher(bh3);
-        let (w2, d2) = *ctx.rng.pick(&[((w / 2).max(1), d), (w + 3, d), (w, d + 1), (w, (d / 2).max(1)), (2 * w + 1, (d / 2).max(1)), (1, 1)]);
+        // incl. the same number of cells split differently: transposed, (w*d, 1), (1, w*d), halved/doubled
+        let (w2, d2) = *ctx.rng.pick(&[((w / 2).max(1), d), (w + 3, d), (w, d + 1), (w, (d / 2).max(1)), (2 * w + 1, (d / 2).max(1)), (1, 1),
+            (d, w), (d, w), (w * d, 1), (1, w * d), if w % 2 == 0 { (w / 2, d * 2) } else { (w * 2, (d / 2).max(1)) }]);
+        if w2 * d2 == w * d && (w2, d2) != (w, d) {
+            ctx.stat("cms.clonefrom.samecells", 1);
+        }
         ctx.op(format!("cms.new 5 {} {} {}", ct, w2, d2));
         ctx.hasher(bh);
         for _ in 0..ctx.rng.clone().below(4) {
@@ -498,7 +503,15 @@ pub fn qf_history(ctx: &mut Ctx, nops: u64) {
     // clone_from into a filter with another quotient / remainder width holding other content
     if ctx.rng.chance(1, 2) && q + r < 64 {
         let (q2, r2) = *ctx.rng.pick(&[(q + 1, r), ((q - 1).max(1), r), (q, r + 1), (q + 1, (r - 1).max(1)), (q, r)]);
+        // the receiver's hasher varies on its own too (a copy must hash like its source)
+        let bh_src = bh;
+        if ctx.rng.chance(1, 2) {
+            let bh2 = ctx.rand_hasher();
+            ctx.hasher(bh2);
+            ctx.stat("qf.clonefrom.otherhasher", 1);
+        }
         ctx.op(format!("qf.new 7 {} {}", q2, r2));
+        ctx.hasher(bh_src);
         for _ in 0..ctx.rng.clone().below(4) {
             ctx.op(format!("qf.insert 7 {}", *ctx.rng.clone().pick(&pool)));
         }
